@@ -64,9 +64,27 @@ GzCfgs(g) ==
 GenInitL == /\ \/ \E x \in ReqIdx : \E c \in LimCfgs(ReqWire(x)) : InitWith(c, ReqWire(x))
                \/ \E g \in GzIdx, fr \in GzFrs, t \in TAILs : \E c \in GzCfgs(g) : InitWith(c, GzWire(g, fr, t))
             /\ trail = <<>> /\ eofs = <<>> /\ done = FALSE
+(* C08: responses for the client reader: token grammar x {GET, HEAD} x decompress, body limits relative to
+   the body, gzip members complete and truncated in every framing *)
+CONSTANTS GzDrops, GzRespFrs
+ClientBase == [BaseCfg EXCEPT !.mode = "client"]
+ClientBody(w) == LET ms == Msgs(OneShot([ClientBase EXCEPT !.maxBody = Huge], w, TRUE).ev) IN
+                 IF ms = <<>> THEN 0 ELSE Len(ms[Len(ms)].body)
+ClientCfgs(w) ==
+    {[ClientBase EXCEPT !.head = h, !.decompress = dz, !.gz = IF dz THEN GzTable ELSE <<>>] : h \in GenHeads, dz \in BOOLEAN}
+    \cup {[ClientBase EXCEPT !.maxBody = Nat0(ClientBody(w) + d)] : d \in LimDeltas}
+GzClientCfgs(g) ==
+    {[ClientBase EXCEPT !.decompress = TRUE, !.gz = GzTable], [ClientBase EXCEPT !.decompress = FALSE, !.gz = GzTable],
+     [ClientBase EXCEPT !.decompress = TRUE, !.gz = GzTable, !.head = TRUE]}
+    \cup {[ClientBase EXCEPT !.decompress = TRUE, !.gz = GzTable, !.maxBody = Nat0(Len(GzTable[g].dec) + d)] : d \in LimDeltas}
+GenInitC == /\ \/ \E x \in RespIdx : \E c \in ClientCfgs(RespWire(x)) : InitWith(c, RespWire(x))
+               \/ \E g \in GzIdx, fr \in GzRespFrs, dr \in GzDrops : \E c \in GzClientCfgs(g) : InitWith(c, GzRespWire(g, fr, dr))
+            /\ trail = <<>> /\ eofs = <<>> /\ done = FALSE
+
 Compute == /\ ~done /\ done' = TRUE
            /\ LET wk == Walk(cfg, wire) IN trail' = wk.tr /\ eofs' = wk.eo
            /\ UNCHANGED <<vars, step>>
 GenSpec == GenInit /\ [][Compute]_<<vars, step, trail, eofs, done>>
 GenSpecL == GenInitL /\ [][Compute]_<<vars, step, trail, eofs, done>>
+GenSpecC == GenInitC /\ [][Compute]_<<vars, step, trail, eofs, done>>
 =============================================================================
